@@ -1066,7 +1066,17 @@ class Interp:
                 m_ = self.eval(t.slice)
                 if isinstance(m_, list) and len(m_) == len(base) and all(isinstance(x, bool) for x in m_):
                     mask = m_
-            if mask is not None:
+            idxs = None
+            if mask is None and isinstance(base, list) and not isinstance(t.slice, (ast.Slice, ast.Tuple, ast.Constant)):
+                m_ = self.eval(t.slice)
+                if isinstance(m_, list) and m_ and all(isinstance(x, Poly) and x.is_const() for x in m_):
+                    idxs = [int(x.const_value()) for x in m_]  # x[list of positions] = scalar / one value per position
+            if idxs is not None:
+                if any(i_ < -len(base) or i_ >= len(base) for i_ in idxs) or (isinstance(v, (list, tuple)) and len(v) != len(idxs)):
+                    raise Undecided("fancy-index assignment out of range")
+                for j_, i_ in enumerate(idxs):
+                    base[i_] = v[j_] if isinstance(v, (list, tuple)) else v
+            elif mask is not None:
                 # x[boolean mask] = scalar / sequence of as many values as the mask selects
                 vals = iter(v) if isinstance(v, (list, tuple)) else None
                 for i_, on in enumerate(mask):
@@ -1979,7 +1989,8 @@ class Interp:
             x = to_poly(ev(args[0]))
             lo = ev(args[1]) if len(args) > 1 else (ev(kw["min_value"]) if "min_value" in kw else None)
             hi = ev(args[2]) if len(args) > 2 else (ev(kw["max_value"]) if "max_value" in kw else None)
-            return fn("clip", x, to_poly(lo) if lo is not None else Poly.atom("NONE"), to_poly(hi) if hi is not None else Poly.atom("NONE"))
+            _b = lambda v_: Poly.atom("NONE") if v_ is None else (Poly.atom("VEC<" + ",".join(str(to_poly(y_)) for y_ in v_) + ">") if isinstance(v_, (list, tuple)) else to_poly(v_))  # per-component bounds
+            return fn("clip", x, _b(lo), _b(hi))
         if name in OPAQUE_FNS:
             return fn(name if name != "lgamma" else "gammaln", *[to_poly(ev(a)) for a in args])
         if name == "shape":
